@@ -203,7 +203,8 @@ class Decl(Process):
         return {}
 
 
-VAL = {'one': 5, 'two': 6}
+# (one of the two values is falsy: a declared 0 is a declaration)
+VAL = {'one': 0, 'two': 6}
 UNI = {'one': units.g, 'two': units.mg}
 from vivarium.core.serialize import SetSerializer, FunctionSerializer  # noqa: E402
 SER = {'one': str(SetSerializer.python_type), 'two': str(FunctionSerializer.python_type)}
